@@ -3,7 +3,7 @@
    NV.Bam.Decode (io/reader/record.rs, record/codec/decoder*.rs, slices of record_ref.rs),
    bin = NV.Index.Bins.reg2bin 14 5 (shared with C17). *)
 From Coq Require Import List NArith ZArith Bool Lia ZifyBool ZifyNat ZifyN.
-From NV Require Import Index.Bins Bam.Record Bam.Encode Bam.Decode Bam.Lazy Bam.CodecProofs Bam.AuxProofs Bam.LazyProofs Bam.LazyCigarProofs.
+From NV Require Import Index.Bins Bam.Record Bam.Encode Bam.Decode Bam.Lazy Bam.CodecProofs Bam.AuxProofs Bam.LazyProofs Bam.LazyCigarProofs Bam.LazyDataProofs.
 Import ListNotations.
 Open Scope N_scope.
 
@@ -161,8 +161,8 @@ Proof. vm_compute. repeat split; reflexivity. Qed.
    (all bases) and quality scores of the lazy view are r's fields and do not panic; data() is the
    raw byte range that the eager decoder parses ([dec_data] of it, then [resolve], gives r's data
    and CIGAR); cigar() (c05_lazy_cigar_eq_eager below) is r's CIGAR, also when the stored
-   operations are the kSmN placeholder and the CIGAR comes from the CG field.  Not covered: the
-   typed lazy field iterator of data() (Data::iter/get). *)
+   operations are the kSmN placeholder and the CIGAR comes from the CG field; the typed data view
+   (Data::iter/get) and Sequence::len/get are c05_lazy_data_eq_eager / c05_lazy_seq_get below. *)
 Theorem c05_lazy_eq_eager :
   forall body r,
     validate body = Ok tt -> decode_body body = Ok r ->
@@ -202,6 +202,43 @@ Proof.
 Qed.
 Print Assumptions c05_lazy_view.
 
+(* The typed lazy data view.  Data::iter() with the lazy field decoders (every type, arrays
+   decoded from their raw buffer) yields, without error, exactly the fields [dt] that the eager
+   decoder reads before its CG resolution, in order; Data::get(t) is the first field with tag t.
+   [dt] is the eager record's data whenever no CG field was consumed (no CG field, or the stored
+   CIGAR is not the kSmN placeholder); when it was, the eager data is [dt] without that field
+   (resolve = Data::remove): that remaining difference is the recorded finding
+   lazy-data-retains-cg-after-resolve. *)
+Theorem c05_lazy_data_eq_eager :
+  forall body r,
+    validate body = Ok tt -> decode_body body = Ok r ->
+    exists cig dt,
+      lzp_data body = Some (dt, false) /\
+      chunk_ops (lz_cigar_raw body) = Ok cig /\
+      resolve (r_seq r) cig dt = Ok (r_cigar r, r_data r) /\
+      (forall t, data_get (dt, false) t = option_map Ok (find_tag t dt)) /\
+      (find_tag CG dt = None \/ is_placeholder body (lz_cigar_raw body) = false -> dt = r_data r).
+Proof. exact lazy_data_eq. Qed.
+Print Assumptions c05_lazy_data_eq_eager.
+
+(* Sequence::len() and Sequence::get(i) for every index: the i-th eagerly decoded base, None from
+   the length on, never a panic; QualityScores::iter() yields the bytes of as_bytes(), which
+   c05_lazy_view equates with the eager scores *)
+Theorem c05_lazy_seq_get :
+  forall body r i,
+    validate body = Ok tt -> decode_body body = Ok r ->
+    lzp_seq_len body = Some (lenN (r_seq r)) /\ lzp_seq_get body i = Some (nthN i (r_seq r)).
+Proof. exact lazy_seq_get_eq. Qed.
+Print Assumptions c05_lazy_seq_get.
+
+(* and none of them panics on any validated body, eagerly decodable or not *)
+Theorem c05_lazy_detail_no_panic :
+  forall body, validate body = Ok tt ->
+    (exists d, lzp_data body = Some d) /\ lzp_seq_len body = Some (lz_lseq body) /\
+    forall i, exists x, lzp_seq_get body i = Some x.
+Proof. exact lazy_detail_no_panic. Qed.
+Print Assumptions c05_lazy_detail_no_panic.
+
 (* non-vacuity of the placeholder branch: 2 bases, stored CIGAR 2S5N, data NM:C:1 then
    CG:B,I [2M]: the lazy and the eager CIGAR are both 2M *)
 Example c05_example_lazy_placeholder :
@@ -240,6 +277,16 @@ Definition ex_cg_body : bytes :=
 Example c05_example_lazy_cg_not_u32 :
   validate ex_cg_body = Ok tt /\ lzp_cigar ex_cg_body = Some (Ok [(4, 1); (3, 39)]) /\
   decode_body ex_cg_body = Err InvalidData.
+Proof. vm_compute. repeat split; reflexivity. Qed.
+
+(* the remaining lazy/eager data difference in the model (finding lazy-data-retains-cg-after-resolve):
+   on the placeholder example the lazy data view still lists CG, the eager data do not *)
+Example c05_example_lazy_data_retains_cg :
+  let body := [255;255;255;255; 255;255;255;255; 2; 255; 72;18; 2;0; 4;0; 2;0;0;0; 255;255;255;255;
+               255;255;255;255; 0;0;0;0; 113;0; 36;0;0;0; 83;0;0;0; 18; 255;255;
+               78;77;67;1; 67;71;66;73; 1;0;0;0; 32;0;0;0] in
+  lzp_data body = Some ([((78, 77), VNum tyC 1%Z); (CG, VArr tyI [32%Z])], false) /\
+  lzp_seq_get body 1 = Some (Some 67) /\ lzp_seq_get body 2 = Some None.
 Proof. vm_compute. repeat split; reflexivity. Qed.
 
 (* non-vacuity: a mapped record with an odd-length lower-case/non-IUPAC sequence *)
